@@ -82,9 +82,11 @@ REGISTRY["C03"] = {
                    "downstream tasks) for one activation, plus rapid-drawn orders for 2..3 consecutive activations of the same gateway inside a loop; "
                    "lock-step against the token game (nothing released before the N-th arrival, exactly the M downstream tasks once each after it) and "
                    "trace-level accounting at the gateway (M flows released and N-min(N,M) surplus arrivals consumed per activation). Exhaustive over shapes "
-                   "and orders, sampled over goroutine schedules. TestC03Skew: 1..3 tokens PER incoming flow of one gateway (2..3 incoming, 1..3 outgoing; several tasks merged by an exclusive "
+                   "and orders, sampled over goroutine schedules. TestC03Skew: 1..3 (a quarter of the cases up to 9) tokens PER incoming flow of one gateway (2..3 incoming, 1..3 outgoing; several tasks merged by an exclusive "
                    "gateway in front of each incoming flow), answered in any order - in particular several tokens on one incoming flow before anything arrived on another; "
-                   "equal and unequal numbers per flow (tokens without a partner stay at the gateway, the instance does not complete). TestC03Wide: joins with 31..130 incoming flows (around and beyond 32 / 64), 1..3 branch tasks held back at drawn positions (the last declared, the first declared, anywhere): nothing before the last of them is answered, one token afterwards."),
+                   "equal and unequal numbers per flow (tokens without a partner stay at the gateway, the instance does not complete). TestC03Wide: joins with 31..130 incoming flows (around and beyond 32 / 64), 1..3 branch tasks held back at drawn positions (the last declared, the first declared, anywhere): nothing before the last of them is answered, one token afterwards. "
+                   "TestC03Edited: a parsed model with N declared branches of which K1 are wired at the fork and the join; one instance runs, the gateways' outgoing / incoming lists are "
+                   "changed in code to K2 branches, a second instance is created from the same in-memory model and must fork and join K2 ways."),
     "level_note": LOCKSTEP_TRUST,
     "technique": "bounded-exhaustive enumeration + rapid property test, lock-step differential against a token-game model",
     "rule": ("start -> fork(1->N) -> N tasks -> gateway under test (N->M) -> M tasks -> join(M->1) -> end, optionally inside a loop for re-entry. "
@@ -95,6 +97,7 @@ REGISTRY["C03"] = {
         {"name": "TestC03Reentry", "checks": {"quick": 150, "thorough": 3000}, "shards": {"quick": 8, "thorough": 16}, "gomaxprocs": [4, 1, 2, 16]},
         {"name": "TestC03Skew", "checks": {"quick": 60, "thorough": 1500}, "shards": {"quick": 8, "thorough": 16}, "gomaxprocs": [4, 1, 2, 16]},
         {"name": "TestC03Wide", "checks": {"quick": 8, "thorough": 150}, "shards": {"quick": 4, "thorough": 16}},
+        {"name": "TestC03Edited", "checks": {"quick": 60, "thorough": 1500}, "shards": {"quick": 4, "thorough": 8}},
     ],
 }
 
@@ -443,6 +446,8 @@ REGISTRY["C18"] = {
     "rule": ("Distinct = descriptor. Non-trivial = >=2 processes and (a process that finishes without any task, or a message flow, or >=2 waits)."),
     "tests": [
         {"name": "TestC18ProcessSet", "checks": {"quick": 120, "thorough": 4000}, "shards": {"quick": 16, "thorough": 16}, "gomaxprocs": [4, 2, 16, 1]},
+        # "each behaves as it would alone" also in its data: members of a set that use the same variable names (C16's campaign)
+        {"name": "TestC16SetIsolation", "pkg": "props/c16", "label": "members-keep-their-own-data", "checks": {"quick": 60, "thorough": 2000}, "shards": {"quick": 4, "thorough": 8}},
     ],
 }
 
